@@ -84,6 +84,9 @@ static void body(int t){
 	for(int it=0; it<4 && URCU_TLS(urcu_bp_reader); it++){ vs_call("unregister",0); struct rcu_reader *r=URCU_TLS(urcu_bp_reader); pthread_setspecific(urcu_bp_key,NULL); urcu_bp_unregister(r); vs_ret("unregister",0); }
 	myslot[t]=0;
 #else
+	/* a thread that is leaving the registry is no longer a reader: a handler using RCU while (or after) rcu_unregister_thread() runs is outside C19 (the read-side
+	   API requires a registered thread), so the thread blocks signals first, as an application must */
+	{ sigset_t all; sigfillset(&all); pthread_sigmask(SIG_BLOCK,&all,NULL); }
 	vs_call("unregister",0); rcu_unregister_thread(); vs_ret("unregister",0);
 #endif
 }
